@@ -41,7 +41,10 @@ Proof.
     destruct (has_gvar tm) eqn:Hg; [reflexivity|]. simpl in Hk.
     destruct om as [|mu om']; [reflexivity|]. simpl in Hk.
     destruct (t_triples tm) eqn:Ht; [|discriminate]. f_equal. apply fold_dw_off; auto.
-  - destruct (has_gvar tm && negb (is_nil om)); [discriminate|]. reflexivity.
+  - destruct (has_gvar tm && negb (is_nil om)); [discriminate|].
+    destruct (lazy_region tm om); [|reflexivity].
+    exfalso. revert Hk.
+    match goal with |- (if ?c then _ else _) = _ -> _ => destruct c end; discriminate.
 Qed.
 
 Lemma eval_op_off e k o s : has_dataset e = true -> op_kf e k o = 0 ->
